@@ -19,11 +19,12 @@ type respScript struct {
 	Bursts     []int  // when set: Raw is written in pieces of these lengths (rest at the end), paced
 	CloseAfter bool
 	// fault before answering
-	Fault string // "", "close-before-response", "stall", "half-response"
-	Early bool   // respond right after the header section, without reading the body, then close
-	NoCL  bool   // answer 200 without Content-Length (close-delimited), then close
-	EarlyKeep bool // respond (keep-alive) right after the header section, then go on reading the request
-	Seq   *faultSeq // when set: the k-th arrival of this target (at any backend) gets faults[k]
+	Fault      string    // "", "close-before-response", "stall", "half-response"
+	Early      bool      // respond right after the header section, without reading the body, then close
+	NoCL       bool      // answer 200 without Content-Length (close-delimited), then close
+	Interim100 bool      // emit an unsolicited "100 Continue" before the final response
+	EarlyKeep  bool      // respond (keep-alive) right after the header section, then go on reading the request
+	Seq        *faultSeq // when set: the k-th arrival of this target (at any backend) gets faults[k]
 }
 
 type faultSeq struct {
@@ -195,6 +196,9 @@ func (w *world) handler(name string) func(bc *sys.BackendConn) {
 					bc.Conn.Write([]byte("HTTP/1.1 200 OK\r\nContent-Le"))
 					return
 				}
+			}
+			if sc != nil && sc.Interim100 {
+				bc.Conn.Write([]byte("HTTP/1.1 100 Continue\r\n\r\n"))
 			}
 			if sc != nil && sc.Raw != nil {
 				if len(sc.Bursts) > 0 {
